@@ -701,6 +701,46 @@ example :
       s.rets.getLast? = some (.deq (some 1)) ∧ s.started.map (·.1) = [1, 0] :=
   ⟨Sqfs.C09.run_reachable _ _ _, by decide⟩
 
+/-! ### the theorems applied to the instance, every hypothesis discharged (`exCodec_ok`, `exP_side`) -/
+
+example : run (serial exP) 3 exFiles = runEager (serial exP) exFiles :=
+  run_eq_spec exP exCodec_ok exP_side.1 exP_side.2.1 3 exFiles
+example : run (serial exP) 3 exFiles (sy := true) = runEager (serial exP) exFiles :=
+  run_sync_eq_spec exP exCodec_ok exP_side.1 exP_side.2.1 3 exFiles
+example : run (serial exP) 3 exFiles = run (serial exP) 40 exFiles :=
+  backlog_independent exP exCodec_ok exP_side.1 exP_side.2.1 3 40 exFiles
+example : ∃ out, run (serial exP) 3 exFiles = .ok out :=
+  run_ok exP exCodec_ok exP_side.1 exP_side.2.1 3 exFiles exP_side.2.2.1
+example : ∃ out, run (serial exP) 3 exFiles = .ok out ∧
+    out.view = specView exP.pre (Sqfs.Pack.specPack (toPackParams exP) (toPackFiles exFiles)) :=
+  run_eq_specPack exP exCodec_ok exP_side.2.2.2.2 exP_side.2.2.2.1 exP_side.1 exP_side.2.1 3 exFiles exP_side.2.2.1
+/-- the threaded theorems: 2 and 4 workers, backlogs 3 and 40, the behaviour every realised behaviour is (`realised_unique`) -/
+example : run { exP with ans := behAns serialAnsHist } 3 exFiles = run { exP with ans := behAns serialAnsHist } 40 exFiles :=
+  jobs_independent exP exCodec_ok exP_side.1 exP_side.2.1 2 4 serialAnsHist serialAnsHist (fun _ => Or.inr rfl)
+    (fun _ => Or.inr rfl) 3 40 exFiles
+example : ∃ out, run { exP with ans := behAns serialAnsHist } 3 exFiles = .ok out ∧
+    out.view = specView exP.pre (Sqfs.Pack.specPack (toPackParams exP) (toPackFiles exFiles)) :=
+  threaded_eq_specPack exP exCodec_ok exP_side.2.2.2.2 exP_side.2.2.2.1 exP_side.1 exP_side.2.1 2 serialAnsHist
+    (fun _ => Or.inr rfl) 3 exFiles exP_side.2.2.1
+example := threaded_readback exP exCodec_ok exP_side.2.2.2.2 exP_side.2.2.2.1 exP_side.1 exP_side.2.1 2 serialAnsHist
+    (fun _ => Or.inr rfl) 3 exFiles exP_side.2.2.1 1 (by decide)
+example := threaded_directives exP exCodec_ok exP_side.2.2.2.2 exP_side.2.2.2.1 exP_side.1 exP_side.2.1 2 serialAnsHist
+    (fun _ => Or.inr rfl) 3 exFiles exP_side.2.2.1
+/-- an API script: a file, a manual submission, a `sync` -/
+example : runOps true { exP with ans := behAns serialAnsHist } 3 [.file ⟨0, [1, 2, 3, 4, 5]⟩, .submit 0 [1, 2], .sync] =
+    runOps true (serial exP) 3 [.file ⟨0, [1, 2, 3, 4, 5]⟩, .submit 0 [1, 2], .sync] :=
+  script_schedule_independent true exP 2 serialAnsHist (fun _ => Or.inr rfl) 3 _
+/-- `pool_last_answer_is_serial` on a real execution of the threaded pool (the one shown above: two workers, worker 1
+overtakes worker 0): its last answer, item 1, is the serial pool's answer for the same four calls -/
+example :
+    let cfg : Pool.Cfg := ⟨true, fun _ => 0⟩
+    let s := Pool.run cfg (Pool.init 2)
+      [.main (.call (.submit 0)), .main (.cont false), .main (.call (.submit 1)), .main (.cont false),
+       .worker 0 false, .worker 1 false, .worker 1 false, .worker 1 false, .worker 0 false, .worker 0 false,
+       .main (.call .dequeue), .main (.cont false), .main (.call .dequeue), .main (.cont false)]
+    (s.rets.getLast?).getD .destroyed = serialAnsHist s.calls ∧ s.rets.getLast? = some (.deq (some 1)) := by
+  intro cfg s
+  exact ⟨pool_last_answer_is_serial (fun _ => rfl) (Sqfs.C09.run_reachable _ _ _) (Or.inl (by decide)), by decide⟩
 /-- two process environments that differ in everything but `SOURCE_DATE_EPOCH` -/
 example : imageTimes ⟨some [49, 50], 1700000000, [85, 84, 67], [67], 18, [47]⟩ {} [5, -1] =
           imageTimes ⟨some [49, 50], 42, [], [], 63, []⟩ {} [5, -1] ∧
